@@ -174,6 +174,20 @@ mutual
               | .ok ms r' => cont (.arr (ms.map (·.2))) r'
               | .illformed => .illformed
               | .unjudged => .unjudged)
+            else if t = 0x05 then
+              -- binary ::= int32 subtype (byte*): the int32 counts the bytes after the subtype. Subtype 0x02 ("binary (old)") has an
+              -- inner structure whose rendering is left open; every other subtype is delivered as the bytes, marked "ext"
+              (match takeN 4 r with
+              | none => .illformed
+              | some (lb, r1) =>
+                let n := leVal lb
+                if n ≥ 2 ^ 31 then .illformed
+                else match r1 with
+                  | [] => .illformed
+                  | st :: r2 =>
+                    match takeN n r2 with
+                    | none => .illformed
+                    | some (d, r3) => if st = 0x02 then .unjudged else cont (.bytes d "ext") r3)
             else if t = 0x08 then
               (match r with
               | 0 :: r' => cont (.bool false) r'
@@ -183,15 +197,18 @@ mutual
             else if t = 0x0A then cont .null r
             else if t = 0x10 then (match takeN 4 r with | none => .illformed | some (d, r') => cont (.int (toSigned 32 (leVal d)) "") r')
             else if t = 0x12 then (match takeN 8 r with | none => .illformed | some (d, r') => cont (.int (toSigned 64 (leVal d)) "") r')
-            else if t = 0x05 ∨ t = 0x06 ∨ t = 0x07 ∨ t = 0x0B ∨ t = 0x0C ∨ t = 0x0D ∨ t = 0x0E ∨ t = 0x0F ∨ t = 0x11 ∨ t = 0x13 ∨ t = 0x7F ∨ t = 0xFF then .unjudged
+            else if t = 0x06 ∨ t = 0x07 ∨ t = 0x0B ∨ t = 0x0C ∨ t = 0x0D ∨ t = 0x0E ∨ t = 0x0F ∨ t = 0x11 ∨ t = 0x13 ∨ t = 0x7F ∨ t = 0xFF then .unjudged
             else .illformed
 end
 
-def decode (s : Bytes) : Res BV :=
-  match document (2 * s.length + 2) s with
+/-- the whole input is one document, read with `fuel` (an artefact of the definition: see `decode`) -/
+def decodeWith (fuel : Nat) (s : Bytes) : Res BV :=
+  match document fuel s with
   | .ok ms r => .ok (.map ms) r
   | .illformed => .illformed
   | .unjudged => .unjudged
+
+def decode (s : Bytes) : Res BV := decodeWith (2 * s.length + 2) s
 
 end Bson
 
